@@ -5,6 +5,7 @@ import (
 	"encoding/binary"
 	"fmt"
 	"go/types"
+	"os"
 	"sort"
 	"time"
 
@@ -258,3 +259,5 @@ func (in *Interp) makeLen(t *term.Term, site ssa.Instruction) int {
 	}
 	return int(in.concretize(t, "make len"))
 }
+
+var debugOn = os.Getenv("GOSYM_DEBUG") != ""
